@@ -327,3 +327,22 @@ Proof.
   exists CCo, 131072, (PPos (32768 + 2048) (PGrow 32768 131072 1 PNil PNil) PNil).
   split; vm_compute; reflexivity.
 Qed.
+
+Theorem value_returned c stack p b :
+  wf_C23 c stack p = true -> In (ERet b) (run_C23 c stack p) -> b = true.
+Proof.
+  intros Hwf Hin. pose proof (bookkeeping_ok c stack p Hwf) as H. unfold ok_weak_C23, ok_gen in H.
+  apply andb_true_iff in H as [H _]. rewrite forallb_forall in H. exact (H _ Hin).
+Qed.
+
+(** a callback that was moved to a fresh segment has the red zone (guard page not counted); every
+    callback runs inside the last segment the coroutine reports *)
+Theorem room_on_fresh_segment c stack p d en grew len inb r :
+  wf_C23 c stack p = true -> In (EGrow d en grew len inb r) (run_C23 c stack p) ->
+  inb = true /\ (grew = true -> r = true).
+Proof.
+  intros Hwf Hin. pose proof (bookkeeping_ok c stack p Hwf) as H. unfold ok_weak_C23, ok_gen in H.
+  apply andb_true_iff in H as [H _]. rewrite forallb_forall in H. specialize (H _ Hin). cbn [ok_event] in H.
+  apply andb_true_iff in H as [H Hr]. apply andb_true_iff in H as [_ Hi]. split; [exact Hi|].
+  intros ->. exact Hr.
+Qed.
